@@ -126,7 +126,42 @@ func program(hist []string) (string, bool) {
 		b.WriteString(s)
 	}
 	b.WriteString(state)
+	// `$v.path` reads of the assigned path in both variables (the whole-variable output above is the
+	// stored string form; this goes through the stored value)
+	p := lastPath(hist)
+	if p == "" {
+		p = "a"
+	}
+	fmt.Fprintf(&b, "out $a.%s\nout '%s'\nout $b.%s\nout '%s'\n", p, sep, p, sep)
 	return b.String(), true
+}
+
+func lastPath(hist []string) string {
+	if len(hist) == 0 {
+		return ""
+	}
+	if f := strings.Split(hist[len(hist)-1], ":"); len(f) >= 3 {
+		return f[2]
+	}
+	return ""
+}
+
+// elementText: what `out $v.path` prints for the value at path (ok=false: the read must fail).
+func elementMatches(doc any, path []string, printed string) bool {
+	v, ok := lookup(doc, path)
+	printed = strings.TrimSuffix(printed, "\n")
+	if !ok {
+		return printed == ""
+	}
+	switch t := v.(type) {
+	case string:
+		return printed == t
+	case map[string]any, []any:
+		got, ok := parseDoc(printed)
+		return ok && reflect.DeepEqual(got, v)
+	default:
+		return printed == canon(t)
+	}
 }
 
 // ---- JSON tree helpers ---------------------------------------------------------------------------
@@ -414,10 +449,12 @@ func (e *env) run(init int, hist []string) step {
 			segs[len(segs)-1] += l
 		}
 	}
-	if len(segs) < 7 {
+	if len(segs) < 9 {
 		st.findings = append(st.findings, finding{"observe", fmt.Sprintf("cannot split the output into states: %q", r.Stdout)})
 		return st
 	}
+	readA, readB := segs[len(segs)-3], segs[len(segs)-2]
+	segs = segs[:len(segs)-2]
 	n := len(segs)
 	preA, okA0 := parseDoc(segs[n-6])
 	preB, okB0 := parseDoc(segs[n-5])
@@ -481,6 +518,15 @@ func (e *env) run(init int, hist []string) step {
 		st.findings = append(st.findings, fs...)
 		same("a", preA, postA, okA)
 		same("b", preB, postB, okB)
+	}
+	if p := lastPath(hist); p != "" && okA && okB {
+		path := strings.Split(p, ".")
+		if !elementMatches(postA, path, readA) {
+			st.findings = append(st.findings, finding{"element-read-consistent", fmt.Sprintf("`out $a.%s` prints %q but $a is %s", p, readA, canon(postA))})
+		}
+		if !elementMatches(postB, path, readB) {
+			st.findings = append(st.findings, finding{"element-read-consistent", fmt.Sprintf("`out $b.%s` prints %q but $b is %s", p, readB, canon(postB))})
+		}
 	}
 	if okA && okB {
 		st.ok = true
@@ -624,7 +670,7 @@ func replay(c *vlib.Ctx, w string) {
 func init() {
 	vlib.Register(&vlib.Check{
 		ID: "C12", Engine: "E3",
-		Rule:   "variables a and b are injected as json-typed variables (a = D_i, b = D_i+1 for the start documents {\"a\":1,\"b\":{\"c\":\"x\"}}, [1,{\"k\":true}], {\"a\":[1,2]}); breadth-first search over histories of {b = $a, a = $b, $a.P = V, $b.P = V, call of a function (v: json) that assigns 2 at P of its parameter and prints it} with P in {a, b.c, 0, 1.k, a.1, n, b.n, a.5} and V in {2, \"y\", true}, history length <= L (quick 3, thorough 4); each history is replayed as one murex program, both documents are printed before and after the last statement, and the last statement is judged: a copy equals its source, the other variable never changes, a failed assignment changes nothing, after a successful one the path reads back V (converted to string for a string leaf; V itself for a same-type leaf, a new path or a replaced container; for a number or bool leaf of another type only that the leaf keeps its JSON type) and every other path is unchanged, the callee's change is not seen by the caller; successors with a new (a,b) document pair are enqueued; depth-1 prefixes are dealt out to the workers; non-trivial = the history contains a copy statement before its last statement (the two variables share an origin)",
+		Rule:   "variables a and b are injected as json-typed variables (a = D_i, b = D_i+1 for the start documents {\"a\":1,\"b\":{\"c\":\"x\"}}, [1,{\"k\":true}], {\"a\":[1,2]}); breadth-first search over histories of {b = $a, a = $b, $a.P = V, $b.P = V, call of a function (v: json) that assigns 2 at P of its parameter and prints it} with P in {a, b.c, 0, 1.k, a.1, n, b.n, a.5} and V in {2, \"y\", true}, history length <= L (quick 3, thorough 4); each history is replayed as one murex program, both documents are printed before and after the last statement, and the last statement is judged: a copy equals its source, the other variable never changes, a failed assignment changes nothing, after a successful one the path reads back V (converted to string for a string leaf; V itself for a same-type leaf, a new path or a replaced container; for a number or bool leaf of another type only that the leaf keeps its JSON type) and every other path is unchanged, the callee's change is not seen by the caller, and `out $a.P` / `out $b.P` agree with the printed documents; successors with a new (a,b) document pair are enqueued; depth-1 prefixes are dealt out to the workers; non-trivial = the history contains a copy statement before its last statement (the two variables share an origin)",
 		Run:    run,
 		Replay: replay,
 		Assumptions: []string{
